@@ -243,7 +243,7 @@ def run_shard(pid, stream, idx, nshards, seed, n, thorough, extra):
         raise MachineryError('harness shard failed rc=%s: %s\n%s' % (p.returncode, ' '.join(cmd),
                                                                      open(cases + '.err').read()[-2000:]))
     with open(cases) as fi, open(verd, 'w') as fo:
-        p = subprocess.run([DRV], stdin=fi, stdout=fo, stderr=subprocess.PIPE, timeout=7200)
+        p = subprocess.run([DRV], stdin=fi, stdout=fo, stderr=subprocess.PIPE, timeout=7200, env=dict(os.environ, PV_PROP=pid), text=True)
     if p.returncode != 0:
         raise MachineryError('driver failed on %s: %s' % (cases, p.stderr[-2000:]))
     return cmd, cases, verd
@@ -337,7 +337,7 @@ def replay(pid, path):
     if rec['index'] < len(lines):
         now = lines[rec['index']]
         print('implementation now:', now)
-        q = subprocess.run([DRV], input=now + '\n', stdout=subprocess.PIPE, text=True)
+        q = subprocess.run([DRV], input=now + '\n', stdout=subprocess.PIPE, text=True, env=dict(os.environ, PV_PROP=pid))
         print('model verdict now :', q.stdout.strip())
         return 1 if q.stdout.startswith('FAIL') else 0
     print('case index no longer produced by the harness')
